@@ -1316,5 +1316,657 @@ theorem G_kwRef {rec : Rec} (hall : ∀ i t, SI A (rec i t)) (r : Str) (inst : J
 
 end Kw
 
+section Assembly
+open Spec
+
+/-! ### the schemas one layer of `iter_errors` passes to the recursive call -/
+
+/-- the members of a keyword value -/
+def elems : Json → List Json
+  | .arr xs => xs
+  | .obj kvs => kvs.map (·.2)
+  | _ => []
+
+/-- (an over-approximation of) the schemas `evalStep … (.obj kvs)` passes to the recursive call:
+    a keyword value, a member of a keyword value, or the schema synthesized by `disallow` -/
+inductive Reach (kvs : List (Str × Json)) : Json → Prop
+  | val {k : Str} {v : Json} : (k, v) ∈ kvs → Reach kvs v
+  | elem {k : Str} {v t : Json} : (k, v) ∈ kvs → t ∈ elems v → Reach kvs t
+  | syn {v x : Json} : (ks "disallow", v) ∈ kvs → (x = v ∨ x ∈ elems v) → Reach kvs (synth x)
+
+/-- shaped at some depth -/
+def Good (refs : Bool) (d : Draft) (t : Json) : Prop := ∃ m, shapedN refs d m t = true
+
+theorem all_isStrJ {rs : List Json} (h : rs.all isStrJ = true) : ∀ x ∈ rs, ∃ s, x = .str s := by
+  intro x hx
+  have := List.all_eq_true.mp h x hx
+  cases x <;> first | exact ⟨_, rfl⟩ | cases this
+
+theorem isStrJ_str {v : Json} (h : isStrJ v = true) : ∃ s, v = .str s := by
+  cases v <;> first | exact ⟨_, rfl⟩ | cases h
+
+theorem isNonNegInt_num {d : Draft} {v : Json} (h : isNonNegInt d v = true) : v.isNumJ = true := by
+  cases v <;> first | rfl | (unfold isNonNegInt at h; cases h)
+
+theorem good_bool {refs : Bool} {d : Draft} (b : Bool) (h : (d = Draft.d6 || d = Draft.d7) = true) :
+    Good refs d (.bool b) := ⟨1, by unfold shapedN; exact h⟩
+
+theorem branchOf_properties (d : Draft) : branchOf d (ks "properties") = .props := by
+  cases d <;> decide +kernel
+theorem branchOf_patternProperties (d : Draft) : branchOf d (ks "patternProperties") = .props := by
+  cases d <;> decide +kernel
+theorem branchOf_then : branchOf .d7 (ks "then") = .sub1 := by decide +kernel
+theorem branchOf_else : branchOf .d7 (ks "else") = .sub1 := by decide +kernel
+theorem branchOf_type3 : branchOf .d3 (ks "type") = .type3 := by decide +kernel
+
+theorem synth_good {refs : Bool} {m : Nat} {x : Json}
+    (hx : (∃ s, x = .str s) ∨ (x.isObj = true ∧ shapedN refs .d3 m x = true)) :
+    shapedN refs .d3 (m + 1) (synth x) = true := by
+  rw [synth, shapedN_obj]
+  have h1 : lookupJ (if (Draft.d3 = Draft.d6 || Draft.d3 = Draft.d7) = true then "$id" else "id")
+      [(skey "type", Json.arr [x])] = none := by
+    unfold lookupJ Json.lookup
+    rw [if_neg (by decide +kernel)]
+    rfl
+  have h2 : lookupJ "$ref" [(skey "type", Json.arr [x])] = none := by
+    unfold lookupJ Json.lookup
+    rw [if_neg (by decide +kernel)]
+    rfl
+  rw [h1, h2]
+  dsimp only
+  rw [List.all_cons, List.all_nil, Bool.and_true, Bool.true_and]
+  dsimp only
+  rw [show branchOf Draft.d3 (skey "type") = .type3 from branchOf_type3]
+  unfold interp
+  dsimp only
+  rw [List.all_cons, List.all_nil, Bool.and_true]
+  rcases hx with ⟨s, rfl⟩ | ⟨h1, h2⟩
+  · rfl
+  · cases x <;> first | exact h2 | cases h1
+
+/-! ### the dispatcher on a shaped schema object -/
+
+set_option linter.unusedSectionVars false
+section Apply
+variable {env : Env} {d : Draft} {fc : Option FormatChecker} {A : Stop → Prop}
+  (hA : Stops env d fc.isSome A)
+include hA
+
+theorem G_kwConst (v inst : Json) : SI A (kwConst v inst) := by
+  unfold kwConst
+  split
+  · exact SI_nothing hA
+  · exact SI_emit hA _
+
+variable {refs : Bool} {n : Nat} {kvs : List (Str × Json)} {rec : Rec}
+  (hrec : ∀ i t, Good refs d t ∧ Reach kvs t → SI A (rec i t))
+  (hall : ∀ p ∈ kvs, interp refs d n (branchOf d p.1) p.2 = true)
+include hrec hall
+
+theorem sibling_obj (key : String) (hbr : branchOf d (ks key) = .props) :
+    ∃ ps, objKvs ((Json.obj kvs).get? (skey key)) = some ps := by
+  show ∃ ps, objKvs (Json.lookup (skey key) kvs) = some ps
+  cases hl : Json.lookup (skey key) kvs with
+  | none => exact ⟨[], rfl⟩
+  | some j =>
+    have h := hall _ (lookup_mem _ _ _ hl)
+    dsimp only at h
+    rw [show skey key = ks key from rfl, hbr] at h
+    unfold interp at h
+    cases j <;> first | exact ⟨_, rfl⟩ | cases h
+
+theorem applyKw_good (impl : FmtImpl) (hnoref : Json.lookup (ks "$ref") kvs = none)
+    (k : Str) (v : Json) (hkv : (k, v) ∈ kvs) (f : KwFn) (hf : lookupS k d.keywords = some f)
+    (inst : Json) : SI A (applyKw env impl (d.cfg fc) rec f v inst (.obj kvs)) := by
+  have hb := expected_of_lookup hf
+  have hv := hall (k, v) hkv
+  dsimp only at hv
+  have hmem := lookupS_mem _ _ _ hf
+  have mkT : ∀ t, shapedN refs d n t = true → Reach kvs t → Good refs d t ∧ Reach kvs t :=
+    fun t h r => ⟨⟨n, h⟩, r⟩
+  have rv : Reach kvs v := .val hkv
+  have re : ∀ t, t ∈ elems v → Reach kvs t := fun t ht => .elem hkv ht
+  cases f <;> unfold applyKw <;> dsimp only <;> simp only [expected] at hb
+  case ref =>
+    have := table_ref d _ hmem rfl
+    dsimp only at this
+    subst this
+    exact absurd hkv (lookup_none_not_mem _ _ hnoref v)
+  case additionalItems =>
+    rw [← Option.some.inj hb] at hv
+    apply G_kwAdditionalItems hA hrec
+    intro ho
+    cases v <;> try cases ho
+    exact mkT _ hv rv
+  case additionalProperties =>
+    rw [← Option.some.inj hb] at hv
+    apply G_kwAdditionalProperties hA hrec
+    · exact sibling_obj hA hrec hall "properties" (branchOf_properties d)
+    · exact sibling_obj hA hrec hall "patternProperties" (branchOf_patternProperties d)
+    · intro ho
+      cases v <;> try cases ho
+      exact mkT _ hv rv
+  case const => exact G_kwConst hA _ _
+  case contains =>
+    split at hb <;> try cases hb
+    rw [← Option.some.inj hb] at hv
+    exact G_kwContains hA hrec _ _ (mkT _ hv rv)
+  case propertyNames =>
+    split at hb <;> try cases hb
+    rw [← Option.some.inj hb] at hv
+    exact G_kwPropertyNames hA hrec _ _ (mkT _ hv rv)
+  case not_ =>
+    rw [← Option.some.inj hb] at hv
+    exact G_kwNot hA hrec _ _ (mkT _ hv rv)
+  case if_ =>
+    split at hb <;> try cases hb
+    rename_i hd7
+    subst hd7
+    rw [← Option.some.inj hb] at hv
+    apply G_kwIf hA hrec _ _ _ (mkT _ hv rv)
+    · intro t ht
+      have hm := lookup_mem _ _ _ (show Json.lookup (skey "then") kvs = some t from ht)
+      have h := hall _ hm
+      dsimp only at h
+      rw [show skey "then" = ks "then" from rfl, branchOf_then] at h
+      exact mkT _ h (.val hm)
+    · intro t ht
+      have hm := lookup_mem _ _ _ (show Json.lookup (skey "else") kvs = some t from ht)
+      have h := hall _ hm
+      dsimp only at h
+      rw [show skey "else" = ks "else" from rfl, branchOf_else] at h
+      exact mkT _ h (.val hm)
+  case exclusiveMinimum =>
+    split at hb <;> try cases hb
+    rename_i hd
+    rw [← Option.some.inj hb] at hv
+    have hv' : v.isNumJ = true := by
+      unfold interp at hv
+      rw [if_pos (by rcases hd with rfl | rfl <;> rfl)] at hv
+      exact hv
+    exact G_kwBound hA _ _ _ _ hv'
+  case exclusiveMaximum =>
+    split at hb <;> try cases hb
+    rename_i hd
+    rw [← Option.some.inj hb] at hv
+    have hv' : v.isNumJ = true := by
+      unfold interp at hv
+      rw [if_pos (by rcases hd with rfl | rfl <;> rfl)] at hv
+      exact hv
+    exact G_kwBound hA _ _ _ _ hv'
+  case minimum =>
+    rw [← Option.some.inj hb] at hv
+    exact G_kwBound hA _ _ _ _ hv
+  case maximum =>
+    rw [← Option.some.inj hb] at hv
+    exact G_kwBound hA _ _ _ _ hv
+  case minimum_draft3_draft4 =>
+    rw [← Option.some.inj hb] at hv
+    exact G_kwMinimumDraft3Draft4 hA _ _ _ hv
+  case maximum_draft3_draft4 =>
+    rw [← Option.some.inj hb] at hv
+    exact G_kwMaximumDraft3Draft4 hA _ _ _ hv
+  case multipleOf =>
+    rw [← Option.some.inj hb] at hv
+    unfold interp at hv
+    cases v <;> try cases hv
+    exact G_kwMultipleOf hA _ _ (of_decide_eq_true hv)
+  case minItems =>
+    rw [← Option.some.inj hb] at hv
+    exact (G_lenBounds hA v inst (isNonNegInt_num hv)).1
+  case maxItems =>
+    rw [← Option.some.inj hb] at hv
+    exact (G_lenBounds hA v inst (isNonNegInt_num hv)).2.1
+  case minLength =>
+    rw [← Option.some.inj hb] at hv
+    exact (G_lenBounds hA v inst (isNonNegInt_num hv)).2.2.1
+  case maxLength =>
+    rw [← Option.some.inj hb] at hv
+    exact (G_lenBounds hA v inst (isNonNegInt_num hv)).2.2.2.1
+  case minProperties =>
+    rw [← Option.some.inj hb] at hv
+    exact (G_lenBounds hA v inst (isNonNegInt_num hv)).2.2.2.2.1
+  case maxProperties =>
+    rw [← Option.some.inj hb] at hv
+    exact (G_lenBounds hA v inst (isNonNegInt_num hv)).2.2.2.2.2
+  case uniqueItems => exact G_kwUniqueItems hA _ _
+  case pattern =>
+    rw [← Option.some.inj hb] at hv
+    obtain ⟨s, rfl⟩ := isStrJ_str hv
+    exact G_kwPattern hA _ _
+  case format =>
+    rw [← Option.some.inj hb] at hv
+    obtain ⟨s, rfl⟩ := isStrJ_str hv
+    exact G_kwFormat hA _ _ _
+  case enum =>
+    rw [← Option.some.inj hb] at hv
+    unfold interp at hv
+    cases v <;> try cases hv
+    exact G_kwEnum hA _ _
+  case dependencies =>
+    split at hb <;> try cases hb
+    rename_i hd
+    rw [← Option.some.inj hb] at hv
+    unfold interp at hv
+    cases v <;> try cases hv
+    rename_i ds
+    try dsimp only at hv
+    apply G_kwDependencies hA hrec
+    intro pd hpd
+    have h := List.all_eq_true.mp hv pd hpd
+    have hr : Reach kvs pd.2 := re _ (List.mem_map_of_mem hpd)
+    try dsimp only at h
+    cases h2 : pd.2 <;> rw [h2] at h hr <;> try dsimp only at h
+    · cases h
+    · exact .inr ⟨rfl, good_bool _ h, hr⟩
+    · cases h
+    · exact absurd (of_decide_eq_true h) hd
+    · exact .inl ⟨_, rfl, all_isStrJ h⟩
+    · exact .inr ⟨rfl, mkT _ h hr⟩
+  case dependencies_draft3 =>
+    split at hb <;> try cases hb
+    rename_i hd
+    subst hd
+    rw [← Option.some.inj hb] at hv
+    unfold interp at hv
+    cases v <;> try cases hv
+    rename_i ds
+    try dsimp only at hv
+    apply G_kwDependenciesDraft3 hA hrec
+    intro pd hpd
+    have h := List.all_eq_true.mp hv pd hpd
+    have hr : Reach kvs pd.2 := re _ (List.mem_map_of_mem hpd)
+    try dsimp only at h
+    cases h2 : pd.2 <;> rw [h2] at h hr <;> try dsimp only at h
+    · cases h
+    · cases h
+    · cases h
+    · exact .inr (.inl ⟨_, rfl⟩)
+    · exact .inr (.inr ⟨_, rfl, all_isStrJ h⟩)
+    · exact .inl ⟨rfl, mkT _ h hr⟩
+  case type =>
+    rw [← Option.some.inj hb] at hv
+    unfold interp at hv
+    cases v <;> try cases hv
+    · rename_i t
+      refine G_kwType hA _ _ [.str t] rfl ?_
+      intro x hx
+      rw [List.mem_singleton.mp hx]
+      exact ⟨t, rfl, typeNames_known d fc t (by simpa using hv)⟩
+    · rename_i ts
+      refine G_kwType hA _ _ ts rfl ?_
+      intro x hx
+      have h := List.all_eq_true.mp hv x hx
+      try dsimp only at h
+      cases x <;> try cases h
+      rename_i t
+      exact ⟨t, rfl, typeNames_known d fc t (by simpa using h)⟩
+  case type_draft3 =>
+    split at hb <;> try cases hb
+    rename_i hd
+    rw [← Option.some.inj hb] at hv
+    unfold interp at hv
+    cases v <;> try cases hv
+    · rename_i t
+      refine G_kwTypeDraft3 hA hrec hd _ _ [.str t] rfl ?_
+      intro x hx
+      rw [List.mem_singleton.mp hx]
+      exact .inl ⟨t, rfl⟩
+    · rename_i ts
+      refine G_kwTypeDraft3 hA hrec hd _ _ ts rfl ?_
+      intro x hx
+      have h := List.all_eq_true.mp hv x hx
+      try dsimp only at h
+      have hr : Reach kvs x := re _ hx
+      cases x <;> try cases h
+      · exact .inl ⟨_, rfl⟩
+      · exact .inr ⟨rfl, mkT _ h hr⟩
+  case disallow_draft3 =>
+    split at hb <;> try cases hb
+    rename_i hd
+    subst hd
+    have hk := table_disallow .d3 _ hmem rfl
+    dsimp only at hk
+    subst hk
+    rw [← Option.some.inj hb] at hv
+    unfold interp at hv
+    cases v <;> try cases hv
+    · rename_i t
+      refine G_kwDisallowDraft3 hA hrec _ _ [.str t] rfl ?_
+      intro x hx
+      rw [List.mem_singleton.mp hx]
+      exact ⟨⟨1, synth_good (.inl ⟨t, rfl⟩)⟩, .syn hkv (.inl rfl)⟩
+    · rename_i ts
+      refine G_kwDisallowDraft3 hA hrec _ _ ts rfl ?_
+      intro x hx
+      have h := List.all_eq_true.mp hv x hx
+      try dsimp only at h
+      refine ⟨⟨n + 1, synth_good ?_⟩, .syn hkv (.inr hx)⟩
+      cases x <;> try cases h
+      · exact .inl ⟨_, rfl⟩
+      · exact .inr ⟨rfl, h⟩
+  case extends_draft3 =>
+    rw [← Option.some.inj hb] at hv
+    unfold interp at hv
+    apply G_kwExtendsDraft3 hA hrec
+    · intro ho
+      cases v <;> try cases ho
+      exact mkT _ hv rv
+    · intro ho
+      cases v <;> try cases ho
+      all_goals try cases hv
+      rename_i ss
+      refine ⟨ss, rfl, ?_⟩
+      intro t ht
+      have h := List.all_eq_true.mp hv t ht
+      rw [Bool.and_eq_true] at h
+      exact mkT _ h.2 (re _ ht)
+  case properties =>
+    rw [← Option.some.inj hb] at hv
+    unfold interp at hv
+    cases v <;> try cases hv
+    rename_i ps
+    apply G_kwProperties hA hrec
+    intro p hp
+    have h := List.all_eq_true.mp hv p hp
+    rw [Bool.and_eq_true] at h
+    exact mkT _ h.2 (re _ (List.mem_map_of_mem hp))
+  case patternProperties =>
+    rw [← Option.some.inj hb] at hv
+    unfold interp at hv
+    cases v <;> try cases hv
+    rename_i ps
+    apply G_kwPatternProperties hA hrec
+    intro p hp
+    have h := List.all_eq_true.mp hv p hp
+    rw [Bool.and_eq_true] at h
+    exact mkT _ h.2 (re _ (List.mem_map_of_mem hp))
+  case properties_draft3 =>
+    split at hb <;> try cases hb
+    rename_i hd
+    subst hd
+    rw [← Option.some.inj hb] at hv
+    unfold interp at hv
+    cases v <;> try cases hv
+    rename_i ps
+    apply G_kwPropertiesDraft3 hA hrec
+    intro p hp
+    have h := List.all_eq_true.mp hv p hp
+    rw [Bool.and_eq_true] at h
+    exact ⟨by simpa using h.1, mkT _ h.2 (re _ (List.mem_map_of_mem hp))⟩
+  case required =>
+    rw [← Option.some.inj hb] at hv
+    unfold interp at hv
+    cases v <;> try cases hv
+    exact G_kwRequired hA _ _ (all_isStrJ hv)
+  case allOf =>
+    rw [← Option.some.inj hb] at hv
+    unfold interp at hv
+    cases v <;> try cases hv
+    rw [Bool.and_eq_true] at hv
+    exact G_kwAllOf hA hrec _ _ fun t ht => mkT _ (List.all_eq_true.mp hv.2 t ht) (re _ ht)
+  case anyOf =>
+    rw [← Option.some.inj hb] at hv
+    unfold interp at hv
+    cases v <;> try cases hv
+    rw [Bool.and_eq_true] at hv
+    exact G_kwAnyOf hA hrec _ _ fun t ht => mkT _ (List.all_eq_true.mp hv.2 t ht) (re _ ht)
+  case oneOf =>
+    rw [← Option.some.inj hb] at hv
+    unfold interp at hv
+    cases v <;> try cases hv
+    rw [Bool.and_eq_true] at hv
+    exact G_kwOneOf hA hrec _ _ fun t ht => mkT _ (List.all_eq_true.mp hv.2 t ht) (re _ ht)
+  case items =>
+    split at hb <;> try cases hb
+    rename_i hd
+    rw [← Option.some.inj hb] at hv
+    unfold interp at hv
+    apply G_kwItems hA hrec
+    · intro ss hss
+      subst hss
+      exact fun t ht => mkT _ (List.all_eq_true.mp hv t ht) (re _ ht)
+    · intro ha
+      cases v <;> try cases ha
+      all_goals try cases hv
+      · exact ⟨good_bool _ hv, rv⟩
+      · exact mkT _ hv rv
+  case items_draft3_draft4 =>
+    split at hb <;> try cases hb
+    rename_i hd
+    rw [← Option.some.inj hb] at hv
+    unfold interp at hv
+    apply G_kwItemsDraft3Draft4 hA hrec
+    · intro ho
+      cases v <;> try cases ho
+      exact mkT _ hv rv
+    · intro ho
+      cases v <;> try cases ho
+      all_goals try cases hv
+      · rcases hd with rfl | rfl <;> cases hv
+      · rename_i ss
+        exact ⟨ss, rfl, fun t ht => mkT _ (List.all_eq_true.mp hv t ht) (re _ ht)⟩
+  case alwaysFail => cases hb
+  case never => cases hb
+  case foreign => cases hb
+
+end Apply
+
+/-! ### one layer of `iter_errors` on a shaped schema -/
+
+section Step
+variable {env : Env} {d : Draft} {fc : Option FormatChecker} {A : Stop → Prop}
+  (hA : Stops env d fc.isSome A)
+include hA
+
+theorem scopeOf_ok (kvs : List (Str × Json))
+    (h : (match lookupJ (if (d = Draft.d6 || d = Draft.d7) = true then "$id" else "id") kvs with
+          | some v => isStrJ v
+          | none => true) = true) : ∃ scope, scopeOf (d.cfg fc) kvs = .ok scope := by
+  unfold scopeOf
+  rw [idKey_eq]
+  unfold lookupJ at h
+  cases hl : Json.lookup (ks (if (d = Draft.d6 || d = Draft.d7) = true then "$id" else "id")) kvs with
+  | none => exact ⟨_, rfl⟩
+  | some j =>
+    rw [hl] at h
+    obtain ⟨s, rfl⟩ := isStrJ_str h
+    exact ⟨_, rfl⟩
+
+theorem evalStep_good (impl : FmtImpl) (refs : Bool) (n : Nat) (rec : Rec) (i s : Json)
+    (hs : shapedN refs d (n + 1) s = true)
+    (hrec : ∀ kvs, s = .obj kvs → ∀ i t, Good refs d t ∧ Reach kvs t → SI A (rec i t))
+    (href : refs = true → ∀ i t, SI A (rec i t)) :
+    SI A (evalStep env impl (d.cfg fc) rec i s) := by
+  cases s with
+  | bool b =>
+    cases b
+    · exact SI_emit hA _
+    · exact SI_nothing hA
+  | obj kvs =>
+    rw [shapedN_obj, Bool.and_eq_true] at hs
+    obtain ⟨hid, hbody⟩ := hs
+    obtain ⟨scope, hscope⟩ := scopeOf_ok hA kvs hid
+    unfold evalStep
+    dsimp only
+    rw [hscope]
+    dsimp only
+    apply SI_withScopeOpt hA
+    unfold schemaBody
+    unfold lookupJ at hbody
+    cases hl : Json.lookup (skey "$ref") kvs with
+    | some r =>
+      rw [show ks "$ref" = skey "$ref" from rfl, hl] at hbody
+      dsimp only at hbody
+      rw [Bool.and_eq_true] at hbody
+      obtain ⟨s, rfl⟩ := isStrJ_str hbody.2
+      dsimp only
+      unfold runKeyword
+      dsimp only
+      rw [ref_bound]
+      dsimp only
+      apply SI_mapErrs
+      unfold applyKw
+      exact G_kwRef hA (href hbody.1) _ _
+    | none =>
+      rw [show ks "$ref" = skey "$ref" from rfl, hl] at hbody
+      dsimp only at hbody
+      have hall := List.all_eq_true.mp hbody
+      dsimp only
+      apply SI_seqG hA
+      intro kv hkv
+      unfold runKeyword
+      split
+      · exact SI_nothing hA
+      · rename_i f hf
+        apply SI_mapErrs
+        exact applyKw_good hA (hrec kvs rfl) hall impl hl kv.1 kv.2 hkv f hf i
+  | null => cases hs
+  | num x => cases hs
+  | str x => cases hs
+  | arr x => cases hs
+
+end Step
+
+end Assembly
+
+section Fuel
+open Spec
+
+/-! ### sizes of reachable schemas -/
+
+theorem size_mem_kvs {k : Str} {v : Json} : ∀ {kvs : List (Str × Json)}, (k, v) ∈ kvs →
+    1 + v.size ≤ Json.size.sizeKvs kvs
+  | [], h => by cases h
+  | (k', v') :: rest, h => by
+    unfold Json.size.sizeKvs
+    rcases List.mem_cons.mp h with h1 | h1
+    · cases h1; omega
+    · have := size_mem_kvs h1; omega
+
+theorem size_mem_list {t : Json} : ∀ {xs : List Json}, t ∈ xs → t.size ≤ Json.size.sizeList xs
+  | [], h => by cases h
+  | x :: xs, h => by
+    unfold Json.size.sizeList
+    rcases List.mem_cons.mp h with h1 | h1
+    · cases h1; omega
+    · have := size_mem_list h1; omega
+
+theorem size_val {k : Str} {v : Json} {kvs : List (Str × Json)} (h : (k, v) ∈ kvs) :
+    v.size + 2 ≤ (Json.obj kvs).size := by
+  have := size_mem_kvs h
+  show v.size + 2 ≤ 1 + Json.size.sizeKvs kvs
+  omega
+
+theorem size_elem {v t : Json} (h : t ∈ elems v) : t.size + 1 ≤ v.size := by
+  cases v with
+  | arr xs =>
+    have := size_mem_list (show t ∈ xs from h)
+    show t.size + 1 ≤ 1 + Json.size.sizeList xs
+    omega
+  | obj kvs =>
+    obtain ⟨p, hp, rfl⟩ := List.mem_map.mp (show t ∈ kvs.map (·.2) from h)
+    have := size_mem_kvs (show (p.1, p.2) ∈ kvs from hp)
+    show p.2.size + 1 ≤ 1 + Json.size.sizeKvs kvs
+    omega
+  | null => cases h
+  | bool _ => cases h
+  | num _ => cases h
+  | str _ => cases h
+
+theorem size_synth (x : Json) : (synth x).size = x.size + 3 := by
+  simp only [synth, Json.size, Json.size.sizeKvs, Json.size.sizeList]
+  omega
+
+/-! ### reference-free shaped schemas, every fuel -/
+
+section Top
+variable {env : Env} {d : Draft} {fc : Option FormatChecker} {A : Stop → Prop}
+
+theorem eval_good_reffree (hA : Stops env d fc.isSome A) (hfuel : A .fuel) (impl : FmtImpl) :
+    ∀ (n : Nat) (i s : Json), Good false d s → SI A (eval env impl (d.cfg fc) n i s) := by
+  intro n
+  induction n with
+  | zero => intro i s _ b st; exact hfuel
+  | succ n ih =>
+    intro i s ⟨m, hm⟩
+    cases m with
+    | zero => unfold shapedN at hm; cases hm
+    | succ m =>
+      exact evalStep_good hA impl false m _ i s hm (fun kvs _ i t ht => ih i t ht.1) (fun h => nomatch h)
+
+/-- stops other than running out of fuel -/
+theorem stops_noFuel (env : Env) (d : Draft) (fcOn : Bool) : Stops env d fcOn (· ≠ .fuel) where
+  done := nofun
+  budget := nofun
+  miss := fun _ => nofun
+  refRes := nofun
+  unknownType := fun _ _ => nofun
+  custom := fun _ _ => nofun
+  reErr := fun _ _ _ => nofun
+  keyErr := .inr nofun
+
+theorem eval_terminates (impl : FmtImpl) :
+    ∀ (n : Nat) (s : Json), Good false d s → 2 * s.size + 2 ≤ n →
+      ∀ i, SI (· ≠ .fuel) (eval env impl (d.cfg fc) n i s) := by
+  intro n
+  induction n using Nat.strong_induction_on with
+  | _ n ih =>
+    intro s ⟨m, hm⟩ hn i
+    have hA := stops_noFuel env d fc.isSome
+    cases n with
+    | zero => omega
+    | succ n' =>
+      cases m with
+      | zero => unfold shapedN at hm; cases hm
+      | succ m =>
+        refine evalStep_good hA impl false m _ i s hm ?_ (fun h => nomatch h)
+        intro kvs hkvs i' t ⟨ht, hreach⟩
+        subst hkvs
+        cases hreach with
+        | val hmem =>
+          have := size_val hmem
+          exact ih n' (Nat.lt_succ_self _) t ht (by omega) i'
+        | elem hmem hel =>
+          have := size_val hmem
+          have := size_elem hel
+          exact ih n' (Nat.lt_succ_self _) t ht (by omega) i'
+        | @syn v x hmem hx =>
+          have hxs : x.size + 2 ≤ (Json.obj kvs).size := by
+            have := size_val hmem
+            rcases hx with rfl | hx
+            · exact this
+            · have := size_elem hx; omega
+          obtain ⟨m2, hm2⟩ := ht
+          cases n' with
+          | zero => omega
+          | succ n'' =>
+            cases m2 with
+            | zero => unfold shapedN at hm2; cases hm2
+            | succ m2 =>
+              refine evalStep_good hA impl false m2 _ i' _ hm2 ?_ (fun h => nomatch h)
+              intro kvs2 hkvs2 i2 t2 ⟨ht2, hreach2⟩
+              have hsz := size_synth x
+              rw [hkvs2] at hsz
+              cases hreach2 with
+              | val hmem2 =>
+                have := size_val hmem2
+                exact ih n'' (by omega) t2 ht2 (by omega) i2
+              | elem hmem2 hel2 =>
+                have := size_val hmem2
+                have := size_elem hel2
+                exact ih n'' (by omega) t2 ht2 (by omega) i2
+              | syn hmem2 _ =>
+                exfalso
+                unfold synth at hkvs2
+                cases hkvs2
+                rcases List.mem_singleton.mp hmem2 with h
+                have : ks "disallow" = skey "type" := (Prod.mk.inj h).1
+                revert this
+                decide +kernel
+
+end Top
+end Fuel
+
 end NoCrash
 end JS
